@@ -27,6 +27,7 @@ Statements:
   ["latch", mem, value, set, reset, "sr"|"rs"]
   ["place", name|None, proto, xexpr, yexpr, props|None]
   ["enable", ent, expr]
+  ["assign", name, expr]         re-binding of an Entity variable
   ["for", var, ["range", a, b, step|None] | ["list", [ints]], body]
   ["func", name, [[ptype, pname]...], body, retexpr|None]
   ["expr", expr]                 expression statement (calls)
@@ -172,6 +173,8 @@ def pstmt(s, ind: str = "") -> list[str]:
         return [f"{ind}Entity {s[1]} = {_place(s)};"]
     if t == "enable":
         return [f"{ind}{s[1]}.enable = {pexpr(s[2])};"]
+    if t == "assign":
+        return [f"{ind}{s[1]} = {pexpr(s[2])};"]
     if t == "for":
         it = s[2]
         if it[0] == "range":
@@ -397,6 +400,14 @@ class Interp:
             ref = self._place(s, env)
             if s[1] is not None:
                 env[s[1]] = ref
+        elif t == "assign":
+            v = self.ev(s[2], env)
+            scope = env
+            while isinstance(scope, _Scope) and not dict.__contains__(scope, s[1]):
+                scope = scope.parent
+            if s[1] not in scope:
+                raise RefError("assignment to undeclared name")
+            scope[s[1]] = v
         elif t == "enable":
             ent = env.get(s[1])
             if not isinstance(ent, EntRef):
